@@ -307,8 +307,9 @@ def _safe_remove(el: etree.Element):
 
 
 def _id_of_target(url):
-    # any id an XML document may carry (dots, colons, ...), optionally quoted
-    match = re.match(r"""^url[(]\s*(["']?)#([^\s"'()]+)\1\s*[)]$""", url)
+    # any id an XML document may carry (dots, colons, ...), optionally quoted;
+    # a paint may name a fallback after the reference: url(#a) red
+    match = re.match(r"""^url[(]\s*(["']?)#([^\s"'()]+)\1\s*[)](\s+\S.*)?$""", url)
     if not match:
         raise ValueError(f'Unrecognized url "{url}"')
     return match.group(2)
